@@ -72,6 +72,49 @@ def eval_spline(ev, seed):
     return r.tobytes() + dr.tobytes()
 
 
+ANALYZER_SHAPES = ["RHFAnalyzer@0", "RHFAnalyzer@1", "RHFAnalyzer@3", "UHFAnalyzer@0", "UHFAnalyzer@2"]
+_SCF = {}
+
+
+def make_analyzer(shape, tag):
+    """an analyzer of a converged small calculation at the grid level of the shape, with stored grid data and a tag"""
+    import models as M
+    from pyscf import dft
+    from ciderpress.pyscf import analyzers as an
+    cname, lvl = shape.split("@")
+    if cname not in _SCF:
+        mol = M.make_mol("H2O" if cname == "RHFAnalyzer" else "OH")
+        ks = dft.RKS(mol) if cname == "RHFAnalyzer" else dft.UKS(mol)
+        ks.xc = "PBE"
+        ks.grids.level = 0
+        ks.kernel()
+        _SCF[cname] = ks
+    ks = _SCF[cname]
+    ana = getattr(an, cname)(ks.mol.copy(), ks.make_rdm1(), grids_level=int(lvl), mo_occ=ks.mo_occ, mo_coeff=ks.mo_coeff, mo_energy=ks.mo_energy)
+    ana.get_rho_data()
+    ana.set("tag", float(tag))
+    return ana
+
+
+def analyzer_shape_of(ana):
+    return "%s@%d" % (type(ana).__name__, int(ana.grids_level))
+
+
+def eval_analyzer(ana):
+    """what the reloaded object evaluates to: its grid, the density data recomputed on it, and everything it stored"""
+    import hashlib
+    h = hashlib.sha1()
+    h.update(np.ascontiguousarray(ana.grids.weights).tobytes())
+    h.update(np.ascontiguousarray(ana.grids.coords).tobytes())
+    h.update(np.ascontiguousarray(ana.get_rho_data(overwrite=True)).tobytes())
+    for k in sorted(ana.keys()):
+        h.update(k.encode())
+        h.update(np.ascontiguousarray(np.asarray(ana.get(k), dtype=float)).tobytes())
+    for a in (ana.dm, ana.mo_occ, ana.mo_coeff, ana.mo_energy):
+        h.update(np.ascontiguousarray(np.asarray(a)).tobytes())
+    return h.digest()
+
+
 def make_model(cls, rng, kind):
     import models as M
     st = M.feature_settings("npa", "j", "none")
@@ -111,32 +154,47 @@ class Replayer:
             try:
                 if name == "make":
                     kind, cls = op[1], op[2]
-                    c = getattr(td, cls) if kind != "spline" else None
+                    c = getattr(td, cls) if kind not in ("spline", "analyzer") else None
                     if kind == "list":
                         obj, aux = make_list(c, rng)
                         ref_eval = eval_list(obj, aux, self.seed)
                     elif kind == "spline":
                         obj = make_spline(rng, cls)
                         ref_eval = eval_spline(obj, self.seed)
+                    elif kind == "analyzer":
+                        obj = make_analyzer(cls, 1)
+                        ref_eval = eval_analyzer(obj)
                     else:
                         obj, aux = make_model(c, rng, step + len(hist))
                         ref_eval = eval_model(obj, aux, self.seed)
                 elif name == "renew":
                     # same kind and class, new parameters (the next dump overwrites the same path)
-                    c = getattr(td, cls) if kind != "spline" else None
+                    c = getattr(td, cls) if kind not in ("spline", "analyzer") else None
                     if kind == "list":
                         obj, aux = make_list(c, rng)
                         ref_eval = eval_list(obj, aux, self.seed)
                     elif kind == "spline":
                         obj = make_spline(rng, cls)
                         ref_eval = eval_spline(obj, self.seed)
+                    elif kind == "analyzer":
+                        obj = make_analyzer(cls, 2 + step)          # same calculation and level, other stored data
+                        ref_eval = eval_analyzer(obj)
                     else:
                         obj, aux = make_model(c, rng, step + len(hist) + 7)
                         ref_eval = eval_model(obj, aux, self.seed)
                     first_dump = {}
                 elif name == "dump":
                     fmt = op[1]
-                    if fmt == "dict":
+                    if kind == "analyzer":
+                        from ciderpress.pyscf.analyzers import recursive_remove_none
+                        if fmt == "dict":
+                            file = ("dict", copy.deepcopy(obj.as_dict()))
+                        else:
+                            p = os.path.join(self.tmp, "a_%d.hdf5" % self.hid)
+                            obj.dump(p)
+                            file = ("hdf5", p)
+                        key = None
+                    elif fmt == "dict":
                         d = obj.as_dict() if kind == "list" else obj.to_dict()
                         file = ("dict", copy.deepcopy(d))
                         key = repr(sorted(d.items(), key=str)) if kind == "list" else None
@@ -149,6 +207,19 @@ class Replayer:
                         if (kind, fmt) in first_dump and first_dump[(kind, fmt)] != key:
                             problems.append((step, "dump after load is not identical to the first dump (%s)" % fmt))
                         first_dump.setdefault((kind, fmt), key)
+                elif name in ("corrupt", "alias") and kind == "analyzer":
+                    from pyscf import lib as pylib
+                    new = "Bogus" if name == "corrupt" else {"RHF": "RKS", "UHF": "UKS"}[file[1]["atype"] if file[0] == "dict" else None or
+                                                                                       str(np.asarray(pylib.chkfile.load(file[1], "analyzer/atype")).item().decode()
+                                                                                           if isinstance(np.asarray(pylib.chkfile.load(file[1], "analyzer/atype")).item(), bytes)
+                                                                                           else np.asarray(pylib.chkfile.load(file[1], "analyzer/atype")).item())]
+                    if file[0] == "dict":
+                        file[1]["atype"] = new
+                    else:
+                        import h5py
+                        with h5py.File(file[1], "r+") as f5:
+                            del f5["analyzer/atype"]
+                            f5["analyzer/atype"] = new
                 elif name == "corrupt":
                     if file[0] == "dict":
                         file[1]["feat_list"][0]["code"] = "Bogus"
@@ -156,6 +227,9 @@ class Replayer:
                         d = yaml.load(open(file[1]), Loader=yaml.Loader)
                         d["feat_list"][0]["code"] = "Bogus"
                         yaml.dump(d, open(file[1], "w"))
+                elif name == "load" and kind == "analyzer":
+                    from ciderpress.pyscf.analyzers import ElectronAnalyzer
+                    obj = ElectronAnalyzer.from_dict(copy.deepcopy(file[1])) if file[0] == "dict" else ElectronAnalyzer.load(file[1])
                 elif name == "load":
                     tcls = td.FeatureList if kind == "list" else SplineSetEvaluator
                     obj = tcls.from_dict(copy.deepcopy(file[1])) if file[0] == "dict" else tcls.load(file[1])
@@ -208,6 +282,9 @@ class Replayer:
                 elif kind == "spline":
                     pc = spline_shape_of(obj) if isinstance(obj, SplineSetEvaluator) else "?"
                     same = isinstance(obj, SplineSetEvaluator) and eval_spline(obj, self.seed) == ref_eval
+                elif kind == "analyzer":
+                    pc = analyzer_shape_of(obj)
+                    same = eval_analyzer(obj) == ref_eval
                 else:
                     pc = cls
                     same = eval_model(obj, aux, self.seed) == ref_eval
@@ -230,11 +307,16 @@ def spec_projection(hist, reg, writes):
             pass
         elif op[0] == "dump":
             file = {"kind": obj["kind"], "fmt": op[1], "cls": obj["cls"],
-                    "code": writes[obj["cls"]] if obj["kind"] == "list" else "spline"}
+                    "code": writes[obj["cls"]] if obj["kind"] == "list" else ("RHF" if obj["cls"].startswith("RHF") else "UHF") if obj["kind"] == "analyzer" else "spline"}
         elif op[0] == "corrupt":
             file["code"] = "Bogus"
+        elif op[0] == "alias":
+            file["code"] = {"RHF": "RKS", "UHF": "UKS"}[file["code"]]
         elif op[0] == "load":
-            if file["kind"] == "spline":
+            if file["kind"] == "analyzer":
+                fam = {"RHF": "R", "RKS": "R", "UHF": "U", "UKS": "U"}.get(file["code"])
+                obj = {"kind": "analyzer", "cls": file["cls"]} if fam == file["cls"][0] else "error"
+            elif file["kind"] == "spline":
                 obj = {"kind": "spline", "cls": file["cls"]}
             elif file["code"] in reg:
                 obj = {"kind": "list", "cls": reg[file["code"]]}
@@ -265,6 +347,11 @@ def main():
     try:
         write_live_module("Live_Registry", {
             "LiveClasses": set(classes), "LiveRegCodes": set(reg.keys()), "LiveSplineShapes": set(SPLINE_SHAPES),
+            "LiveAnalyzerShapes": set(ANALYZER_SHAPES),
+            "LiveAWrites": RawTLA("(" + " @@ ".join("%s :> %s" % (to_tla(k), to_tla("RHF" if k.startswith("RHF") else "UHF")) for k in ANALYZER_SHAPES) + ")"),
+            "LiveAFamily": RawTLA("(" + " @@ ".join("%s :> %s" % (to_tla(k), to_tla(k[0])) for k in ANALYZER_SHAPES) + ")"),
+            "LiveAReg": RawTLA('("RHF" :> "R" @@ "RKS" :> "R" @@ "UHF" :> "U" @@ "UKS" :> "U")'),
+            "LiveAAlias": RawTLA('("RHF" :> "RKS" @@ "UHF" :> "UKS")'),
             "LiveReg": RawTLA("(" + " @@ ".join("%s :> %s" % (to_tla(k), to_tla(v)) for k, v in reg.items()) + ")"),
             "LiveWrites": RawTLA("(" + " @@ ".join("%s :> %s" % (to_tla(k), to_tla(v)) for k, v in writes.items()) + ")"),
         }, d)
@@ -273,8 +360,9 @@ def main():
         maxc = 2 if ck.tier == "quick" else 3
         with open(os.path.join(d, "MC_Registry.cfg"), "w") as f:
             f.write("SPECIFICATION Spec\nCONSTANTS\n Classes <- LiveClasses\n RegCodes <- LiveRegCodes\n Reg <- LiveReg\n"
-                    " Writes <- LiveWrites\n SplineShapes <- LiveSplineShapes\n MaxCycles = %d\nINVARIANT RegistryConsistent\nINVARIANT Emit\nPROPERTY RoundTrip\n"
-                    "PROPERTY UnknownCodeRejected\nPROPERTY BadFormatRejected\nPROPERTY SoundLoadSucceeds\n" % maxc)
+                    " Writes <- LiveWrites\n SplineShapes <- LiveSplineShapes\n AnalyzerShapes <- LiveAnalyzerShapes\n AWrites <- LiveAWrites\n AReg <- LiveAReg\n"
+                    " AFamily <- LiveAFamily\n AAlias <- LiveAAlias\n MaxCycles = %d\nINVARIANT RegistryConsistent\nINVARIANT Emit\nPROPERTY RoundTrip\n"
+                    "PROPERTY UnknownCodeRejected\nPROPERTY BadFormatRejected\nPROPERTY SoundLoadSucceeds\nPROPERTY AliasLoads\n" % maxc)
         r = run_tlc("MC_Registry", os.path.join(d, "MC_Registry.cfg"), workers=8, specdir=d, timeout=3000, coverage=True)
         first = r
         if "RegistryConsistent" in r.violated:
@@ -304,15 +392,15 @@ def main():
     for h in hists:
         kind, cls = h[0][1], h[0][2]
         shape = tuple(tuple(o) for o in h[1:])
-        key = (kind, cls if kind in ("list", "spline") else "*", shape)
+        key = (kind, cls if kind in ("list", "spline", "analyzer") else "*", shape)
         if key in seen:
             continue
         seen.add(key)
         chosen.append(h)
     if ck.tier == "quick":
         # every class with every list behaviour is ~ 21 x 100; cap deterministically
-        lists = [h for h in chosen if h[0][1] in ("list", "spline")]
-        others = [h for h in chosen if h[0][1] not in ("list", "spline")]
+        lists = [h for h in chosen if h[0][1] in ("list", "spline", "analyzer")]
+        others = [h for h in chosen if h[0][1] not in ("list", "spline", "analyzer")]
         import random
         rnd = random.Random(ck.seed)
         rnd.shuffle(others)
@@ -328,6 +416,7 @@ def main():
     rp = Replayer(tmp, ck.seed)
     ncross_want = 10 if ck.tier == "quick" else 60
     nload = 0
+    nana = [0, 0, 0]
     try:
         for h in chosen:
             # a stratified handful of whole-model behaviours also reload in a FRESH interpreter (driver-side dimension)
@@ -335,6 +424,10 @@ def main():
                         and spec_projection(h, reg, writes)[-1] != "error")
             proj, problems = rp.run(h)
             exp = spec_projection(h, reg, writes)
+            if h[0][1] == "analyzer":
+                nana[0] += 1
+                nana[1] += sum(1 for o, e_ in zip(h, exp) if o[0] == "load" and e_ != "error")
+                nana[2] += sum(1 for o, e_ in zip(h, exp) if o[0] == "load" and e_ == "error")
             nontrivial = any(o[0] in ("load", "loadmodel") for o in h)
             ck.count(key=repr(h) if nontrivial else None)
             nload += sum(1 for o in h if o[0] in ("load", "loadmodel"))
@@ -342,11 +435,11 @@ def main():
             for step, (a, b) in enumerate(zip(proj, exp)):
                 if a != b:
                     what = "accepted-but-should-reject" if b == "error" else ("rejected-own-dump" if a == "error" else "wrong-class")
-                    ck.violation("%s:%s:%s:%s" % (kind, cls if kind in ("list", "spline") else "*", h[step][0], what),
+                    ck.violation("%s:%s:%s:%s" % (kind, cls if kind in ("list", "spline", "analyzer") else "*", h[step][0], what),
                                  {"history": h, "step": step, "impl": a, "spec": b}, replay={"hist": h})
                     break
             for step, msg in problems:
-                ck.violation("%s:%s:%s" % (kind, cls if kind in ("list", "spline") else "*", msg.split(":")[0].split("(")[0].strip()),
+                ck.violation("%s:%s:%s" % (kind, cls if kind in ("list", "spline", "analyzer") else "*", msg.split(":")[0].split("(")[0].strip()),
                              {"history": h, "step": step, "msg": msg}, replay={"hist": h})
             if len(ck.samples) < 4 and nontrivial:
                 ck.sample({"history": h, "impl_projection": proj, "spec_projection": exp})
@@ -355,6 +448,9 @@ def main():
     ck.traces = len(chosen)
     ck.extra["behaviours_enumerated_by_tlc"] = len(hists)
     ck.extra["loads_replayed"] = nload
+    ck.extra["analyzer_behaviours"] = "%d behaviours, %d successful reloads (dict and hdf5, own code and alias), %d rejected reloads (unknown calculation type)" % tuple(nana)
+    if nana[1] < 10 or nana[2] < 2:
+        raise MachineryError("vacuous: analyzer reloads %s" % nana)
     ck.extra["loads_in_a_fresh_interpreter"] = getattr(rp, "ncross", 0)
     # binding self-test: a wrong projection must be noticed
     h0 = next((h for h in chosen if h[0][1] == "list" and any(o[0] == "load" for o in h)), None)
